@@ -8,19 +8,19 @@ CLAIMED = {
    text="Every interleaving (within the preemption bound) of Acquire/completions/window-closing limit updates on the real DefaultLimiter+Simple/Precise strategies and on PreciseStrategy directly is executed; each execution's call/return history must be linearizable against an atomic counting gate and the end-state counters must be exact.",
    ref="DESIGN 7 C01", note="scenarios of 2-4 threads, limits 1-3; preemption bound 2 (quick) / 3 (thorough)"),
  "C02": dict(technique=T_T + "; eager virtual clock for give-up vs hand-off",
-   text="All interleavings of a releasing holder, 2-3 callers, a canceller and (queue family) timeouts that may fire at any point, over every limiter stack; oracle: listener iff ok, and at the end every counter is zero and exactly the full limit is admitted again.",
+   text="All interleavings of a releasing holder, 2-3 callers, a canceller and (queue family) timeouts that may fire at any point, over every limiter stack; oracle: listener iff ok, and at the end every counter and partition bin is zero and exactly the full limit is admitted again through the whole stack (wrappers over simple/precise and over partitioned strategies; deadline and poll-timeout expiries racing releases on the eager clock).",
    ref="DESIGN 7 C02", note="limit 1-2, preemption bound 1-2 (quick) / 2-3 (thorough); private gauge read by guarded reflection"),
  "C03": dict(technique=T_S + " (to a fixpoint per configuration) + " + T_T + " with a brute-force linearizability oracle",
-   text="BFS to a fixpoint over acquire/release/SetLimit/AddPartition/RemovePartition sequences on both partitioned strategies for a grid of fraction sets and limits, compared step by step with a reference partition model; concurrent mixes checked for linearizability and exact bins.",
+   text="BFS to a fixpoint over acquire/release/SetLimit/AddPartition/RemovePartition sequences on both partitioned strategies for a grid of fraction sets and limits, compared step by step with a reference partition model; concurrent mixes (acquire/release/SetLimit and AddPartition/RemovePartition racing them) checked for linearizability and exact bins.",
    ref="DESIGN 7 C03", note="fractions/limits from a finite grid; limits up to 5"),
  "C04": dict(technique=T_S + "; environment draws enumerated",
-   text="BFS over sample sequences (rtt 0..2^62, in-flight 0..2^31-1, drops, drop-only windows) x random draws x configuration grid for AIMD/Vegas/Gradient/Gradient2 alone and inside the windowed/traced wrappers; oracle: no panic, finite, within [floor, ceiling].",
+   text="BFS over sample sequences (rtt 0..2^62, in-flight 0..2^31-1, drops, drop-only windows, RTT-sum overflow) x random draws x configuration grid (full and NewDefault constructors, debug logger, caller-supplied Vegas functions) for AIMD/Vegas/Gradient/Gradient2 alone and inside the windowed/traced wrappers; oracle: no panic, finite, within [floor, ceiling].",
    ref="DESIGN 7 C04", note="abstract sample alphabet; depth 5-6 (quick) / 7-8 (thorough)"),
  "C05": dict(technique="exhaustive deviation-bounded history enumeration on the real DefaultLimiter + " + T_T,
    text="Every 26-completion history with <= DB deviations x estimate trajectories (0, negative, repeated, 2^30) x strategy kinds: after construction and after every update the strategy limit, partition shares and gauges equal the estimate floored at 1; concurrent window closers explored under the scheduler.",
    ref="DESIGN 7 C05", note="DB 2 (quick) / 3 (thorough); scripted limit stands for any algorithm"),
  "C06": dict(technique=T_S + " with per-state probes (N-drop runs)",
-   text="Every reachable state (depth-bounded) of AIMD/Vegas/Gradient: a drop never raises the estimate (AIMD: exact rule) and a sustained run of drops reaches the floor within a configuration-derived N.",
+   text="Every reachable state (depth-bounded) of AIMD/Vegas/Gradient, alone and behind the windowed wrapper: a drop never raises the estimate (AIMD: exact rule) and a sustained run of drops (any RTT incl. 0, or drop-only windows) reaches the floor within a configuration-derived N.",
    ref="DESIGN 7 C06", note="Vegas probe multiplier >= 4 (see DESIGN false-alarm register)"),
  "C07": dict(technique=T_S + " with per-state probes (healthy runs)",
    text="Every reachable state of the four algorithms (histories with drops and zero RTTs): app-limited samples never raise the estimate; a saturated drop-free run recovers to within one of the ceiling within N samples.",
@@ -28,8 +28,8 @@ CLAIMED = {
  "C08": dict(technique=T_S + " with relational twin-run probes",
    text="At every reachable state of Vegas/Gradient/Gradient2 the state is rebuilt per RTT and the same final sample with a higher RTT must not yield a higher estimate (all pairs from a 6-8 value RTT menu, 4 in-flight values, both drop flags).",
    ref="DESIGN 7 C08", note="configurations with initial <= max"),
- "C09": dict(technique="exhaustive deviation-bounded history enumeration on the real DefaultLimiter/WindowedLimit against a reference window fold",
-   text="Every 26-completion history with <= DB deviations (drop, ignore, sub-threshold, long, overlapping, gap) on a manual virtual clock: the delegate's received OnSample sequence (position and arguments) equals the reference fold.",
+ "C09": dict(technique="exhaustive deviation-bounded history enumeration on the real DefaultLimiter/WindowedLimit against a reference window fold + " + T_T + " for completions racing the closing of a window",
+   text="Every 26-completion history with <= DB deviations (drop, ignore, sub-threshold, long, overlapping, gap) on a manual virtual clock: the delegate's received OnSample sequence (position and arguments) equals the reference fold; two completions racing a window close must yield the fold of one of their two orders.",
    ref="DESIGN 7 C09", note="windowSize 10; DB 2 for 8 configurations + DB 3 for one each (quick), DB 3 (thorough)"),
  "C10": dict(technique=T_T + "; lazy virtual clock, oracle at every quiescent state",
    text="All interleavings of a releasing holder with 1-3 callers going to sleep, for blocking/deadline/queue limiters and all outcomes: at every quiescent state no caller is parked while capacity is free; violations carry a signature computed from public-seam events.",
@@ -41,7 +41,7 @@ CLAIMED = {
    text="Driver sequences with backlog 1-2: full backlog refuses at once, queue_size equals blocked callers after every event; concurrent arrivals racing for the last slot and give-ups racing hand-offs: at every quiescent state gauge = parked callers <= max.",
    ref="DESIGN 7 C12", note="preemption bound 2-3"),
  "C13": dict(technique=T_T + " over a grid of instants on the lazy virtual clock, every tie order",
-   text="Grid of arrival/bound/cancel/release instants for deadline, blocking and queue limiters: the caller returns refused exactly at its bound, granted exactly at the release, pre-cancelled/expired calls consume nothing; plus driver sequences for queue timeouts/cancellation.",
+   text="Grid of arrival/bound/cancel/release instants for deadline, blocking and queue limiters: the caller returns refused exactly at its bound, granted exactly at the release, pre-cancelled calls and arrivals at/after the deadline consume nothing; plus driver sequences for queue timeouts/cancellation.",
    ref="DESIGN 7 C13", note="virtual clock: statements about the code's logic at exact instants"),
  "C14": dict(technique="complete enumeration of the finite closed space (plain build of the real interceptors with recording doubles)",
    text="Interceptor kind x limiter answer x call result x classifier x options, and all sequences of <= 3-4 RecvMsg/SendMsg with distinct recv/send limiters: right limiter consulted once before the call, token completed exactly once with the classifier's outcome, results unchanged, refusals touch nothing.",
@@ -53,16 +53,16 @@ CLAIMED = {
    text="Sample / SetLimit / NotifyOnChange sequences for every limit and wrapper: a changed estimate notified every registered listener, the last delivered value equals EstimatedLimit, wrappers report their delegate's estimate and traced forwards samples unchanged.",
    ref="DESIGN 7 C16", note="depth 5-7"),
  "C17": dict(technique=T_T + " in a -race build: ThreadSanitizer happens-before analysis as the per-execution monitor, scheduler hand-offs hidden from it",
-   text="Every unordered pair of exported calls (incl. a call with itself) on a shared instance of every limit, strategy, partition, limiter, measurement and registry type runs as two threads; all interleavings within the preemption bound are enumerated and every execution is monitored by the race detector; calibration scenarios prove on every run that the monitor is neither blinded nor triggered by the scheduler.",
-   ref="DESIGN 7 C17", note="pairs of calls (triples not built); reports are deduplicated per process by the detector; vrt is //go:norace and adds no happens-before edge of its own"),
+   text="Every unordered pair of exported calls (incl. a call with itself) on a shared instance of every limit, strategy, partition, limiter, measurement and registry type — incl. started registries and whole limiter stacks reporting to one, with the poll tick firing at any point — runs as two threads; all interleavings within the preemption bound are enumerated and every execution is monitored by the race detector; calibration scenarios prove on every run that the monitor is neither blinded nor triggered by the scheduler.",
+   ref="DESIGN 7 C17", note="pairs of calls (triples in the thorough tier); reports are deduplicated per process by the detector; vrt is //go:norace and adds no happens-before edge of its own"),
  "C18": dict(technique=T_S + " with twin probes after Reset",
    text="Add/Get/Reset/Update sequences for every measurement type against reference folds; after every Reset the instance and a new one are driven with every continuation of length <= 3 and must agree; sample-window summaries checked for every permutation.",
    ref="DESIGN 7 C18", note="depth 6 (quick) / 8 (thorough)"),
  "C19": dict(technique=T_T + "; lazy virtual clock",
-   text="N > limit callers on fixed and generic pools (all orderings): holders never exceed the limit, everybody is granted with no virtual time elapsing, nobody is parked while a slot is free.",
+   text="N > limit callers on fixed and generic pools (all orderings): holders never exceed the limit, everybody is granted with no virtual time elapsing (with 300 ms hold times: the k-th grant exactly when the (k-limit)-th holder releases), also with exactly limit+backlog callers; nobody is parked while a slot is free.",
    ref="DESIGN 7 C19", note="limit 1-2, up to limit+2 callers"),
  "C20": dict(technique=T_S + " + " + T_T + " for the poller life cycle",
-   text="Instrumented strategies/limits/queue limiter over a recording registry (samples and gauges equal the model after every step); bundled registries' backend contents and dogstatsd datagrams for every kind x prefix x id; all Start/Stop/Register/tick sequences and Stop racing a tick under the virtual ticker.",
+   text="Instrumented strategies/limits/queue limiter over a recording registry (samples and gauges equal the model after every step); bundled registries' backend contents and dogstatsd datagrams for every kind x prefix x id; all Start/Stop/Register/tick sequences (polled values must reach the backend), Stop racing a tick, and Start/Stop programs on two threads under the virtual ticker.",
    ref="DESIGN 7 C20", note="third-party go-metrics/dogstatsd run unmodified"),
 }
 ALL = ["C%02d" % i for i in range(1, 21)]
